@@ -1076,9 +1076,11 @@ func (db *DB) init(ctx context.Context) (err error) {
 
 	// A closed database must not be re-initialised by an operation that was
 	// queued behind Close(): nothing would ever release its read lock and
-	// file handles again. Open() clears the flag.
+	// file handles again. Open() clears the flag. The operation must fail
+	// rather than report success: a sync that did nothing would otherwise be
+	// acknowledged although transactions committed before it are not copied.
 	if db.closed {
-		return nil
+		return fmt.Errorf("%w: %s", ErrDatabaseNotOpen, db.path)
 	}
 
 	// Exit if no database file exists.
